@@ -179,9 +179,9 @@ Shapes == << << <<1,1>> >>, << <<2,1>> >>, << <<1,2>> >>, << <<2,2>> >>, << <<0,
              << <<32,32>> >>, << <<16,16>>, <<8,8>>, <<8,8>> >>, << <<31,1>>, <<1,31>> >>, << <<11,10>>, <<11,11>>, <<10,11>> >>,
              << <<8,8>> >>, << <<1,32>> >>, << <<32,1>> >> >>
 NShapes == IF Thorough THEN Len(Shapes) ELSE 17
-\* generators of the flows: h and three seed-derived ones
-FlowSeeds == << Rnd32(31), Rnd32(32), Rnd32(33) >>
-FlowGenPts == << PedGenerate(FlowSeeds[1])[2], PedGenerate(FlowSeeds[2])[2], PedGenerate(FlowSeeds[3])[2] >>
+\* generators of the flows: two seed-derived ones and h
+FlowSeeds == << Rnd32(31), Rnd32(32) >>
+FlowGenPts == << PedGenerate(FlowSeeds[1])[2], PedGenerate(FlowSeeds[2])[2], PedGenH >>
 
 Cases ==
        { << "genh" >> }
@@ -191,8 +191,8 @@ Cases ==
   \cup { << "genblind", s, b >> : s \in { 1, 2, 7, 8 }, b \in 1..Len(GBlindPool) }
   \cup { << "svdw", t >> : t \in SvdwTs }
   \cup { << "parse", w, pfx, xc >> : w \in { 8, 10 }, pfx \in 0..255, xc \in 1..Len(XClasses) }
-  \cup { << "bsum", len, np, bad, kind, salt >> : len \in SumLens, np \in 0..32, bad \in 0..32, kind \in 1..3, salt \in 1..2 }
-  \cup { << "gbsum", n, nin, bad, kind, salt >> : n \in GbLens, nin \in 0..31, bad \in 0..64, kind \in 1..3, salt \in 1..2 }
+  \cup UNION { { << "bsum", len, np, bad, kind, salt >> : np \in 0..len, bad \in 0..len, kind \in 1..3, salt \in 1..2 } : len \in SumLens }
+  \cup UNION { { << "gbsum", n, nin, bad, kind, salt >> : nin \in 0..(n - 1), bad \in 0..(2 * n), kind \in 1..3, salt \in 1..2 } : n \in GbLens }
   \cup { << "flow", sh, off, mode, ts >> : sh \in 1..NShapes, off \in 0..4, mode \in { 0, 1 }, ts \in 1..3 }
   \cup { << "tallyraw", k >> : k \in 1..8 }
 \* (descriptors outside the shape of their family are mapped to a canonical member by Expand and de-duplicated)
@@ -251,31 +251,16 @@ ExpandFlow(sh, off0, mode, ts) ==
 \* raw tallies: empty lists (NULL and non-NULL pointers), one-sided lists, C and C, C and -C, unparsable members
 RawC == PedSerCommit(PedCommitPoint(FromNat(5), FromNat(7), PedGenH))
 RawNegC == PedSerCommit(PNeg(PedCommitPoint(FromNat(5), FromNat(7), PedGenH)))
-T(pos, neg, nullp) == [ e |-> "PedTally", in |-> [ pos |-> pos, neg |-> neg, nullp |-> nullp ] ]
+TallyRec(pos, neg, nullp) == [ e |-> "PedTally", in |-> [ pos |-> pos, neg |-> neg, nullp |-> nullp ] ]
 ExpandTallyRaw(k) ==
-  CASE k = 1 -> T(<< >>, << >>, 1)
-    [] k = 2 -> T(<< >>, << >>, 0)
-    [] k = 3 -> T(<< RawC >>, << >>, 1)
-    [] k = 4 -> T(<< >>, << RawC >>, 1)
-    [] k = 5 -> T(<< RawC >>, << RawC >>, 0)
-    [] k = 6 -> T(<< RawC, RawNegC >>, << >>, 1)
-    [] k = 7 -> T(<< RawC >>, << RawNegC >>, 0)
-    [] k = 8 -> T(<< RawC, << 8 >> \o NBytes(P) >>, << RawC >>, 0)
-
-Expand(c) ==
-  CASE c[1] = "genh"     -> [ e |-> "GenH", in |-> [ x |-> 0 ] ]
-    [] c[1] = "commit"   -> CommitRec(NBytes(c[2]), c[3], c[4])
-    [] c[1] = "inf"      -> \* generator +-G: b*G + v*(+-G) is infinity for b = -+v; d = 1: one off (not infinity)
-         CommitRec(NBytes(SAdd(IF c[3] = 7 THEN SNeg(c[2]) ELSE Mod(c[2], N), FromNat(c[4]))), c[2], c[3])
-    [] c[1] = "generate" -> [ e |-> "GenGenerate", in |-> [ seed |-> SeedOf(c[2]) ] ]
-    [] c[1] = "genblind" -> [ e |-> "GenGenerate", in |-> [ seed |-> SeedOf(c[2]), blind |-> NBytes(GBlindPool[c[3]]) ] ]
-    [] c[1] = "svdw"     -> [ e |-> "PedSvdw", in |-> [ t |-> NBytes(c[2]) ] ]
-    [] c[1] = "parse"    -> [ e |-> IF c[2] = 8 THEN "CommitParse" ELSE "GenParse", in |-> [ b |-> << c[3] >> \o NBytes(XClasses[c[4]]) ] ]
-    [] c[1] = "bsum"     -> ExpandBSum(c[2], c[3], c[4], c[5], c[6])
-    [] c[1] = "gbsum"    -> ExpandGbSum(c[2], c[3], c[4], c[5], c[6])
-    [] c[1] = "flow"     -> ExpandFlow(c[2], c[3], c[4], c[5])
-    [] c[1] = "tallyraw" -> ExpandTallyRaw(c[2])
-    [] OTHER -> ExpandTiny(c)
+  CASE k = 1 -> TallyRec(<< >>, << >>, 1)
+    [] k = 2 -> TallyRec(<< >>, << >>, 0)
+    [] k = 3 -> TallyRec(<< RawC >>, << >>, 1)
+    [] k = 4 -> TallyRec(<< >>, << RawC >>, 1)
+    [] k = 5 -> TallyRec(<< RawC >>, << RawC >>, 0)
+    [] k = 6 -> TallyRec(<< RawC, RawNegC >>, << >>, 1)
+    [] k = 7 -> TallyRec(<< RawC >>, << RawNegC >>, 0)
+    [] k = 8 -> TallyRec(<< RawC, << 8 >> \o NBytes(P) >>, << RawC >>, 0)
 
 -----------------------------------------------------------------------------
 \* X: the order-7/13/199 test groups (cfg: Cases <- TinyCases).  Generators are injected as encodings of
@@ -315,13 +300,13 @@ MapC(l) == [k \in 1..Len(l) |-> TinyC(l[k])]
 L0(l) == IF Len(l) = 0 THEN << >> ELSE l
 ExpandTiny(c) ==
   CASE c[1] = "tcommit" -> [ e |-> "PedCommit", in |-> [ blind |-> NBytes(c[2]), value |-> PedU64Bytes(c[3]), gen |-> TinyGen(c[4]) ] ]
-    [] c[1] = "ttally"  -> T(L0(MapC(c[2])), L0(MapC(c[3])), 1)
+    [] c[1] = "ttally"  -> TallyRec(L0(MapC(c[2])), L0(MapC(c[3])), 1)
     [] c[1] = "ttally3" -> \* three positives against one negative: a + b + c  vs  (a + b + c + d)
-         T(MapC(<< c[2], c[3], c[4] >>), IF (c[2] + c[3] + c[4] + c[5]) % NN = 0 THEN << >> ELSE << TinyC((c[2] + c[3] + c[4] + c[5]) % NN) >>, 0)
+         TallyRec(MapC(<< c[2], c[3], c[4] >>), IF (c[2] + c[3] + c[4] + c[5]) % NN = 0 THEN << >> ELSE << TinyC((c[2] + c[3] + c[4] + c[5]) % NN) >>, 0)
     [] c[1] = "ttallyout" -> \* commitments that are curve points outside the subgroup
          LET o == PedSerCommit(OutsidePt)  no == PedSerCommit(PNeg(OutsidePt)) IN
-         CASE c[2] = 1 -> T(<< o >>, << o >>, 0) [] c[2] = 2 -> T(<< o, no >>, << >>, 0)
-           [] c[2] = 3 -> T(<< o, TinyC(1) >>, << TinyC(1) >>, 0) [] c[2] = 4 -> T(<< o, TinyC(1) >>, << PedSerCommit(PAdd(OutsidePt, TinyPt(1))) >>, 0)
+         CASE c[2] = 1 -> TallyRec(<< o >>, << o >>, 0) [] c[2] = 2 -> TallyRec(<< o, no >>, << >>, 0)
+           [] c[2] = 3 -> TallyRec(<< o, TinyC(1) >>, << TinyC(1) >>, 0) [] c[2] = 4 -> TallyRec(<< o, TinyC(1) >>, << PedSerCommit(PAdd(OutsidePt, TinyPt(1))) >>, 0)
     [] c[1] = "tflow" ->
          IF c[7] = 0
          THEN [ e |-> "PedFlow", in |-> [ gens |-> << TinyGen(c[2]), TinyGen(c[3]) >>, gi |-> << 0, 1 >>, values |-> << TV(c[4]), TV(c[5]) >>,
@@ -336,6 +321,21 @@ ExpandTiny(c) ==
     [] c[1] = "tgbsum" -> [ e |-> "PedBlindGenSum", in |-> [ values |-> << TV(c[2]) >>, gblinds |-> << TB(c[3]) >>, blinds |-> << TB(c[4]) >>, nin |-> 0 ] ]
     [] c[1] = "tgbsum2" -> [ e |-> "PedBlindGenSum", in |-> [ values |-> << TV(c[2]), TV(c[4]) >>, gblinds |-> << TB(c[3]), TB(c[5]) >>,
                                                               blinds |-> << TB(c[6]), TB(2) >>, nin |-> c[7] ] ]
+
+Expand(c) ==
+  CASE c[1] = "genh"     -> [ e |-> "GenH", in |-> [ x |-> 0 ] ]
+    [] c[1] = "commit"   -> CommitRec(NBytes(c[2]), c[3], c[4])
+    [] c[1] = "inf"      -> \* generator +-G: b*G + v*(+-G) is infinity for b = -+v; d = 1: one off (not infinity)
+         CommitRec(NBytes(SAdd(IF c[3] = 7 THEN SNeg(c[2]) ELSE Mod(c[2], N), FromNat(c[4]))), c[2], c[3])
+    [] c[1] = "generate" -> [ e |-> "GenGenerate", in |-> [ seed |-> SeedOf(c[2]) ] ]
+    [] c[1] = "genblind" -> [ e |-> "GenGenerate", in |-> [ seed |-> SeedOf(c[2]), blind |-> NBytes(GBlindPool[c[3]]) ] ]
+    [] c[1] = "svdw"     -> [ e |-> "PedSvdw", in |-> [ t |-> NBytes(c[2]) ] ]
+    [] c[1] = "parse"    -> [ e |-> IF c[2] = 8 THEN "CommitParse" ELSE "GenParse", in |-> [ b |-> << c[3] >> \o NBytes(XClasses[c[4]]) ] ]
+    [] c[1] = "bsum"     -> ExpandBSum(c[2], c[3], c[4], c[5], c[6])
+    [] c[1] = "gbsum"    -> ExpandGbSum(c[2], c[3], c[4], c[5], c[6])
+    [] c[1] = "flow"     -> ExpandFlow(c[2], c[3], c[4], c[5])
+    [] c[1] = "tallyraw" -> ExpandTallyRaw(c[2])
+    [] OTHER -> ExpandTiny(c)
 
 -----------------------------------------------------------------------------
 VARIABLES phase, cur, rec
